@@ -63,7 +63,7 @@ def gen_plan(tape, cfg):
     for _ in range(tape.rint(30, 120, "nops")):
         k = tape.weighted([(10, "build"), (2, "illtyped"), (2, "simplify"), (2, "substitute"), (3, "normalize"),
                            (2, "const"), (2, "eqhash"), (1, "collapse"), (1, "quant_order"), (1, "normalize_clash"),
-                           (1, "builtin_named_sort"), (1, "array_subst"), (1, "pickle"), (1, "equal_type"), (1, "parametric_sort")], "op")
+                           (1, "builtin_named_sort"), (1, "array_subst"), (1, "pickle"), (1, "equal_type"), (1, "parametric_sort"), (1, "env_stack"), (1, "bv_nary"), (1, "infix_neg")], "op")
         o = {"op": k, "client": tape.draw(nclients, "client"), "env": tape.draw(nenv, "env"),
              "i": tape.draw(len(pool), "formula")}
         if k == "build":
@@ -84,6 +84,17 @@ def gen_plan(tape, cfg):
             o["odd"] = tape.draw(4, "const.odd") if tape.chance(1, 3, "const.odd?") else 0
         elif k == "eqhash":
             o["j"] = tape.draw(len(pool), "other")
+        elif k == "env_stack":
+            # environments entered with `with`, possibly one that is already on the stack
+            o["order"] = [tape.draw(nenv, "env_stack.env") for _ in range(tape.rint(2, 4, "env_stack.depth"))]
+        elif k == "bv_nary":
+            o["n"] = tape.rint(3, 6, "bv_nary.n")
+            o["w"] = tape.rint(1, 3, "bv_nary.w")
+            o["ctor"] = tape.choice(["BVAnd", "BVOr", "BVAdd", "BVMul", "BVXor"], "bv_nary.ctor")
+            o["list"] = tape.chance(1, 2, "bv_nary.list")
+        elif k == "infix_neg":
+            o["num"] = tape.rint(-4, 6, "infix_neg.num")
+            o["real"] = tape.chance(1, 2, "infix_neg.real")
         elif k == "normalize":
             o["to"] = tape.draw(nenv, "normalize.to")
         elif k == "quant_order":
@@ -755,6 +766,73 @@ def execute(plan, tape):
                                     (where, na, nb, _s(cp), [str(a_.symbol_type()) for a_ in cp.args()], _s(src),
                                      [str(a_.symbol_type()) for a_ in src.args()]))
                 trace.append(("normalize_clash", "copied"))
+            elif k == "env_stack":
+                # `with env:` makes env the global environment and restores the previous one on
+                # exit, also when the same environment is entered again further up the stack; what
+                # the shortcuts build in between belongs to the environment that is current
+                import pysmt.shortcuts as sc
+
+                def nest(seq, depth):
+                    if not seq:
+                        return
+                    e = envs[seq[0] % len(envs)]
+                    before = penv.get_env()
+                    with e:
+                        if penv.get_env() is not e:
+                            raise Violation("C04:env-stack", "%s: inside `with env%d` another environment is current" % (where, seq[0] % len(envs)))
+                        try:
+                            f_ = build_route(t, e, "shortcut", 0, False)
+                        except (PysmtTypeError, PysmtValueError):
+                            f_ = None
+                        if f_ is not None:
+                            register(seq[0] % len(envs), f_, o["client"], "shortcut", step, where + " (depth %d)" % depth)
+                        nest(seq[1:], depth + 1)
+                        if penv.get_env() is not e:
+                            raise Violation("C04:env-stack", "%s: after leaving an inner `with`, env%d is not current again (order %s)" %
+                                            (where, seq[0] % len(envs), o["order"]))
+                    if penv.get_env() is not before:
+                        raise Violation("C04:env-stack", "%s: leaving `with env%d` did not restore the previous environment (order %s)" %
+                                        (where, seq[0] % len(envs), o["order"]))
+                nest(list(o["order"]), 0)
+                probe("env_stack")
+                trace.append(("env_stack", tuple(o["order"])))
+            elif k == "bv_nary":
+                # documented: more than two arguments give the left-associative formula
+                w = o["w"]
+                xs = [mgr.Symbol("bn%d_%d" % (w, j), bp.to_pysmt_type(bp.BV(w), env)) for j in range(o["n"])]
+                ctor = getattr(mgr, o["ctor"]) if hasattr(mgr, o["ctor"]) else None
+                if ctor is not None:
+                    try:
+                        got = ctor(xs) if o["list"] else ctor(*xs)
+                    except TypeError:
+                        got = None      # a binary-only constructor
+                    if got is not None:
+                        want = xs[0]
+                        for x in xs[1:]:
+                            want = ctor(want, x)
+                        register(ei, got, o["client"], "bv_nary", step, where)
+                        if got is not want:
+                            raise Violation("C04:accessor:argument", "%s: %s of %d operands is %s, not the left-associative %s" %
+                                            (where, o["ctor"], o["n"], _s(got), _s(want)))
+                        probe("bv_nary_left_fold")
+                trace.append(("bv_nary", o["ctor"], o["n"]))
+            elif k == "infix_neg":
+                # -t on a non-bit-vector term is the product with -1, also for constants
+                if env.enable_infix_notation:
+                    c = mgr.Real(o["num"]) if o["real"] else mgr.Int(o["num"])
+                    minus1 = mgr.Real(-1) if o["real"] else mgr.Int(-1)
+                    for x in (c, bp.build(t, env)):
+                        if not (x.get_type().is_int_type() or x.get_type().is_real_type()):
+                            continue
+                        m1 = mgr.Real(-1) if x.get_type().is_real_type() else mgr.Int(-1)
+                        got = -x
+                        want = mgr.Times(x, m1)
+                        register(ei, got, o["client"], "infix_neg", step, where)
+                        if got is not want:
+                            raise Violation("C04:route-dependent-object", "%s: -(%s) built %s, Times(%s, -1) is %s" %
+                                            (where, _s(x), _s(got), _s(x), _s(want)))
+                    probe("infix_negation")
+                trace.append(("infix_neg", o["num"]))
             elif k == "parametric_sort":
                 # symbols whose type mentions a parametric user sort (below the top level too) are
                 # copied into another environment faithfully and come back as the original object
